@@ -1,5 +1,6 @@
 import I18n.Model.Charset
 import I18n.Generated.IconvDl
+import I18n.Generated.EncodingsFn
 import I18n.Model.CharsetCns
 import I18n.Spec.CharsetIconv
 import I18n.Driver.Util
@@ -16,6 +17,8 @@ byte strings as plain hex (`-` = empty), "no value" as `~`.
   `<script>` = `;`-separated `<told>=<reset|~>/<rc>:<consumed>:<written>/<rc>:<consumed>:<written>`, rc ∈ ok,e2big,eilseq,einval,<errno>
 * `gdecloop <bytes> <fuel> <script>` / `gencloop <text> <fuel> <script>`: the same through `decode` / `encode` as REGENERATED from the
   current lib/iconv.py (`Generated.IconvDl`; proved equal to the model in `Props/C20Tie.lean`)
+* `gportable`, `gpropose`, `gascii`, `gsearch`, `gloader`: as `portable` … `loader`, through the functions REGENERATED from the current
+  lib/encodings.py (`Generated.EncodingsFn`; proved equal to the model in `Props/C20Tie.lean`)
 * `chars <strict 0|1> <value>` → tokens joined by `,`
 * `unrep <joined outcome> <per-character outcomes> <characters joined by ,>` → `ok <characters> | crash`; outcome letters `o e i c`
 * `check <name> <is_template> <dec> <codec | ~> <characters | ~ (no language) | ^ (no list)> <oracle>` →
@@ -125,6 +128,42 @@ def handle (op : String) (args : List String) : String :=
     | .notOurs => "none"
     | .charmap f => s!"charmap {showName f}"
     | .iconv e => s!"iconv {showName e}"
+  -- `gportable` / `gpropose` / `gascii` / `gsearch` / `gloader`: the same over the functions REGENERATED from lib/encodings.py
+  -- (Generated.EncodingsFn, tools/translate/encodings2lean.py)
+  | "gportable", [py, n] =>
+    match I18n.Generated.EncodingsFn.is_portable_encoding portableEncodings (nameOf n) (py == "1") with
+    | .ok b => if b then "1" else "0"
+    | .error _ => "exc"
+  | "gpropose", [n, codec] =>
+    match I18n.Generated.EncodingsFn.propose_portable_encoding portableEncodings pycodecToEncoding (fun _ => nameOpt codec) (nameOf n) true with
+    | .error .assertion => "assert"
+    | .error _ => "exc"
+    | .ok none => "none"
+    | .ok (some p) => s!"some {showName p}"
+  | "gascii", [mo, d] =>
+    match I18n.Generated.EncodingsFn.is_ascii_compatible_encoding (fun _ _ => decOf d) [] (mo == "1") with
+    | .error .encodingLookup => "ELE"
+    | .error _ => "exc"
+    | .ok b => if b then "1" else "0"
+  | "gsearch", [n] =>
+    match (I18n.Generated.EncodingsFn._codec_search_function portableEncodings extraEncodings unmangle
+        (fun f => (charmaps.find? (·.1 == f)).map (·.2)) (nameOf n)).map EPy.searchOf with
+    | .ok .notOurs => "none"
+    | .ok (.charmap f) => s!"charmap {showName f}"
+    | .ok (.iconv e) => s!"iconv {showName e}"
+    | .error _ => "exc"
+  | "gloader", [len, raw] =>
+    let r : RawDecode := match raw.toList with
+      | 'T' :: rest => .text (nameOf (String.ofList rest))
+      | 'D' :: rest => match nameOf (String.ofList rest) with
+        | [a, b] => .ude a b
+        | _ => .other
+      | ['U'] => .unicodeError
+      | _ => .other
+    match I18n.Generated.EncodingsFn.decode (fun _ _ => r) (List.replicate len.toNat! 0) [] with
+    | .ok cs => s!"ok {showName cs}"
+    | .error (.unicodeDecode a b) => s!"ude {a} {b}"
+    | .error _ => "crash"
   | "cmdecode", [f, b] =>
     match charmapDecode (tableOf (nameOf f)) (bytesOf b) with
     | .ok cs => s!"ok {showName cs}"
